@@ -14,7 +14,8 @@ RULE = ('state probes: every (index,chunk,instances) with index<instances<=NMAX,
         'monotone runs: real LinesPass("None") / LineMarkersPass under the reference loop for every '
         'required subset of n<=NSUB instances (exhaustive) and random larger n, random verdict '
         'sequences; non-trivial = distinct (pass, n, required set / verdict bits) whose run accepts '
-        'and rejects at least once')
+        'and rejects at least once'
+        ' Also (rounds 4-5, oracle only): IfPass against a unifdef stand-in with nesting / #else / #elif, GCDABinaryPass against a gcov-dump stand-in with records of different sizes, clang binary search with the standard detected by the pass, a LinesPass object reused after a bail-out, indented line markers.')
 TRUSTED = ['hand-written model coq/Cursor/BinaryState.v tied by correspondence (this run) to cvise/passes/abstract.py BinaryState, lines.py, line_markers.py',
            'reference loop tools/vlib/refloop.py stands for the sequential driver (C02 ties it to TestManager)']
 ASSUMPTIONS = ['int(chunk/2) goes through a float: exact below 2^53 instances',
